@@ -26,7 +26,7 @@ META = {
               "astropy NDDataArray -> holder of the data array (HDF5 job; the real NssGrid constructor, meta and axes code runs)"],
     "assumptions": ["REAL mode", "rows non-decreasing, query strictly inside (row[0] < x < row[-1]) as in the statement's quantifier"],
 }
-LEDGER = {"quick": 214, "thorough": 300}
+LEDGER = {"quick": 214, "thorough": 270}
 MOD = "nuspacesim.utils.interp"
 
 
